@@ -24,7 +24,7 @@ theorem RunOK.job_step {cfg : Cfg} {s : St} {d d' : Disk} (h : RunOK cfg s d)
     ⟨by rw [hj]; exact fun p hp => Nat.lt_of_lt_of_le (r5.1 p hp) hnf, hcur⟩, r6, ?_, ?_, fun hc => by cases hc⟩
   · rcases frozenOK_iff.1 r7 with ⟨h1, h2⟩ | ⟨fz, jf, h1, h2, f1, f2, f3, f4, f5, f6⟩
     · exact frozenOK_iff.2 (Or.inl ⟨h1, h2⟩)
-    · refine frozenOK_iff.2 (Or.inr ⟨fz, jf, h1, h2, f1, f2, f3, f4, by rw [hj]; exact f5, ?_⟩)
+    · refine frozenOK_iff.2 (Or.inr ⟨fz, jf, h1, h2, f1, f2, f3, by rw [hj]; exact f4, by rw [hj]; exact f5, ?_⟩)
       intro hn
       obtain ⟨hn', hlv⟩ := hnc (by rw [h1]; exact fun hx => nomatch hx) hn
       obtain ⟨hp, hv⟩ := f6 hn'
